@@ -4,6 +4,7 @@ import (
 	"crypto/sha256"
 	"fmt"
 	"reflect"
+	"runtime"
 	"sort"
 	"strings"
 	"unsafe"
@@ -33,6 +34,7 @@ type Sched struct {
 	sites    map[string]int
 	active   bool
 	alive    int
+	nblocked int // consecutive forced hand-overs without progress
 }
 
 func NewSched(x *X, nclients int, sw []Switch) *Sched {
@@ -76,6 +78,7 @@ func (s *Sched) Yield(site string) {
 	ord := s.nyield
 	s.nyield++
 	s.sites[site]++
+	s.nblocked = 0
 	k, ok := s.plan[ord]
 	if !ok {
 		return
@@ -87,6 +90,29 @@ func (s *Sched) Yield(site string) {
 	me := s.cur
 	s.Switches = append(s.Switches, Switch{Yield: ord, Next: next})
 	s.x.Logf("switch at yield %d (%s): client %d -> %d", ord, site, me, next)
+	s.cur = next
+	s.wake[next] <- struct{}{}
+	<-s.wake[me]
+}
+
+// Blocked is called by the running client when it could not take a lock: the
+// holder is a parked client, so the processor must change hands now. The
+// choice is a function of the scheduler state, hence replayable.
+func (s *Sched) Blocked(site string) {
+	if !s.active {
+		runtime.Gosched()
+		return
+	}
+	s.nblocked++
+	next := s.pick(0)
+	if next < 0 || next == s.cur || s.nblocked > 20000 {
+		panic(fmt.Sprintf("deadlock: client %d waits for a lock at %s and no other client can make progress", s.cur, site))
+	}
+	me := s.cur
+	if s.nblocked <= 3 {
+		s.x.Logf("forced switch (lock busy at %s): client %d -> %d", site, me, next)
+	}
+	s.x.Probe("lock_contention_handover")
 	s.cur = next
 	s.wake[next] <- struct{}{}
 	<-s.wake[me]
